@@ -172,6 +172,71 @@ func RuleK1(r *Report, c *Codec) {
 	r.Check(keysOf(have) == keysOf(want), "K1", "types:signature-set", "", keysOf(have), "derived encoder signatures {"+keysOf(have)+"} differ from the protocol's {"+keysOf(want)+"}")
 }
 
+// K14: a "does it fit" guard may reject a field only if it extends beyond the buffer: a field ending on the last byte fits.
+func RuleK14(r *Report, c *Codec) {
+	r.Rule("K14", "the codec rejects a field as not fitting only when offset+width exceeds the buffer length: a field that ends exactly on the last byte is encoded and decoded", 2)
+	for _, cf := range []*CodecFacts{c.M, c.U} {
+		bad := ""
+		n := 0
+		lenKey := "len(" + cf.Buf + ")"
+		for _, cp := range cf.Paths {
+			n++
+			if cp.ErrNil != 0 {
+				continue
+			}
+			// relations between an end expression and the buffer length
+			for key, bits := range cp.Path.State.Rels {
+				ab := strings.SplitN(key, "\x00", 2)
+				var e string
+				rel := bits
+				switch {
+				case ab[1] == lenKey:
+					e = ab[0]
+				case ab[0] == lenKey:
+					e = ab[1]
+					rel = relFlip(bits)
+				default:
+					continue
+				}
+				if !strings.Contains(e, cf.Offset) {
+					continue
+				}
+				// e (rel) len on a rejecting path
+				minusOne := strings.HasSuffix(e, "-1)")
+				if rel&relEQ != 0 && !minusOne {
+					bad = fmt.Sprintf("a %s field with %s == %s (it ends on the last byte) is rejected", cp.Kind, cut(e, 60), lenKey)
+				}
+				if rel&relLT != 0 {
+					bad = fmt.Sprintf("a %s field that lies inside the buffer (%s < %s) is rejected", cp.Kind, cut(e, 60), lenKey)
+				}
+			}
+			for key, reg := range cp.Path.State.Ints {
+				if !strings.Contains(key, cf.Offset) || !strings.HasPrefix(key, "(") {
+					continue
+				}
+				// (offset+c) compared with constants: 64 must not be in a rejecting region unless the term is an index (…-1)
+				if !reg.Intersect(IntervalSet{{0, 64}}).Empty() && strings.Contains(key, "+") && !strings.HasSuffix(key, "-1)") {
+					// a rejecting path whose end expression may be <= 64
+					if onlyDecidedBy(cp.Path, key) {
+						bad = fmt.Sprintf("a %s field with %s in %s is rejected although it fits in 64 bytes", cp.Kind, cut(key, 60), reg.Intersect(IntervalSet{{0, 64}}).String())
+					}
+				}
+			}
+		}
+		r.Check(bad == "" && n > 0, "K14", "codec."+cf.Dir, c.P.Pos(cf.Fn.Pos()), fmt.Sprintf("%d paths examined", n), bad)
+	}
+}
+
+// onlyDecidedBy: the error of this path is attributable to the comparison on key (no failed nested call or tag parse on the path).
+func onlyDecidedBy(pa Path, key string) bool {
+	for k, v := range pa.State.Bools {
+		if strings.HasPrefix(k, "isnil(") && !v && !strings.Contains(k, "FindStringSubmatch") {
+			return false
+		}
+	}
+	return true
+}
+
 // K2 byte order
 func RuleK2(r *Report, c *Codec) {
 	r.Rule("K2", "encoder and decoder of a kind use the same byte order, the protocol's (little-endian integers, PIN, serial; big-endian version)", 6)
